@@ -391,6 +391,7 @@ theorem readLoop_gen (dc : Decomp) (cols : List Col) (hres : ColsResolve cols) (
           have hload := readRowGroup_first dc cols hres b bs hbs pre post N cu rc rn (bufsOf cols []) true
           rw [hbr] at hload
           have hnext := next_load _ _ rfl (by simp only; omega) (by simp only; omega) hload
+            (by simp only [List.length_cons]; omega)
           rw [readLoop_step f _ _ acc _ _ hnext rfl rfl (scanAll_bufsOf cols r b' hrecs)]
           simp only
           have hfile2 : pre ++ dataOf (b :: bs) ++ post = (pre ++ gBytes b.chunks) ++ dataOf bs ++ post := by
